@@ -80,8 +80,8 @@ Rnd(k, i, j, salt) == Mix(Mix(Mix(Mix(Mix(Seed % 32749, k), i), j), salt), 7)
    marker (p, n) to a concrete, pairwise distinct string *)
 TDRich(n, h) ==
   LET only == "only_" \o n IN
-  CASE h = 0  -> M([k |-> S(n), nest |-> M(("x" :> S(n)) @@ (only :> S(n)))])
-    [] h = 1  -> M((only :> S(n)) @@ ("nest" :> M(only :> S(n))))
+  CASE h = 0  -> M([k |-> S(n), nest |-> M(("x" :> S(n)) @@ (only :> S(n)) @@ ("deep" :> M(("q" :> S(n)) @@ (only :> S(n)))))])
+    [] h = 1  -> M((only :> S(n)) @@ ("nest" :> M((only :> S(n)) @@ ("deep" :> M(only :> S(n))))))
     [] h = 2  -> M([nest |-> M([x |-> S(n), deep |-> M(("q" :> S(n)) @@ (only :> S(n)))])])
     [] h = 3  -> M([k |-> S(n), nest |-> M((only :> S(n)) @@ ("deep" :> M(only :> S(n))))])
     [] h = 4  -> M([k |-> S("#false"), nest |-> M(("x" :> S("#false")) @@ (only :> S(n)))])   \* zero-ish leaves
